@@ -29,6 +29,12 @@ tolerance_def almostEqual_def
 median_shift_equivariant impose_median_spec
 sort_def trim_weights_order_only tmean_def tvariance_def trimmed_k0_def k_zero_cut
 impose_tmean_spec impose_tvariance_spec impose_tstd_spec impose_tvariance_degenerate
+median_def impose_median_keeps_mad mad_affine impose_mad_spec impose_mad_zero_spec impose_mad_degenerate
+expected_variance_def standard_moment_def skewness_kurtosis_def
+impose_moment_order01 impose_moment_spec
+impose_product_spec impose_product_even_sign_partial impose_product_even_sign_witness impose_product_zero impose_product_zsum_spec
+normalize_lp_spec
+metrics_matrix_def metrics_pairwise_def metrics_pairwise_broadcast_def metrics_dmin2_def metrics_mixed_def metrics_points_def minkowski_p0_raises
 """.split()]
 
 RTOL = 1e-9
@@ -335,6 +341,8 @@ def fam_stat(rng, exact):
             return d, mon, "support", 0 < len(want) < n
         return dict(op="support", inputs={"ws": ws, "tol": tol, "pts": pts}, line=line, obs=(o1, o2), exact=True, check=check)
     xs, ws = gen_xw(rng, exact)
+    if ws is not None and len(ws) >= 2 and rng.random() < 0.15:
+        i = rng.randrange(len(ws)); ws[i] = -ws[i]           # a negative weight (the textbook sums are still defined)
     tol = rng.choice([0, 0, 0, 0.5, 2.0]) if sub != "variance" else 0
     order = rng.choice([0, 1, 2, 2, 3, 4]) if sub == "moment" else (2 if sub == "variance" else 1)
     if sub == "mean":
@@ -638,10 +646,12 @@ def fam_weights(rng, exact):
     ct.sum(w1)
     ct.sum(ws)
     ex = exact and ct.ok
+    arg = maybe_np(rng, ws)
     if sub == "impose_sum":
-        obs = call(M.impose_sum, mass, maybe_np(rng, ws), zsum, zmass)
+        obs = call(M.impose_sum, mass, arg, zsum, zmass)
     else:
-        obs = call(M.normalize, maybe_np(rng, ws), mass, zsum, zmass)
+        obs = call(M.normalize, arg, mass, zsum, zmass)
+    arg_after = flist(arg)
     line = "C18 normalize (ws %s) (mass %s) (zsum %s) (zmass %s)" % (fl(ws), f2b(mass), "true" if zsum else "false", f2b(zmass))
     scale = max([abs(w) for w in ws] + [abs(mass), 1.0]) * 4
 
@@ -652,6 +662,8 @@ def fam_weights(rng, exact):
         y = flist(obs[1])
         d = diff_vec(sub, ex, y, r, "w", scale)
         mon = []
+        if not all(same_num(a, c) for a, c in zip(arg_after, ws)):
+            mon.append(("%s/mutates-input" % sub, "the caller's weights %r were edited to %r (mass=%r zsum=%r)" % (ws, arg_after, mass, zsum)))
         sabs = sum(abs(a) for a in fr(ws)); ssum = sum(fr(ws))
         if len(y) != n:
             mon.append(("%s/length" % sub, "returned %d weights for %d" % (len(y), n)))
@@ -1513,6 +1525,8 @@ def fam_malformed(rng, exact):
 FAMILIES = [("stat", fam_stat, 5), ("ess", fam_ess, 4), ("impose", fam_impose, 7), ("weights", fam_weights, 4),
             ("surgery", fam_surgery, 4), ("collapse", fam_collapse, 4), ("dist", fam_dist, 5), ("approx", fam_approx, 1),
             ("robust", fam_robust, 1), ("median", fam_median, 3), ("trim", fam_trim, 6), ("malformed", fam_malformed, 1)]
+import c18x
+FAMILIES = FAMILIES + c18x.FAMILIES_X
 _FAM_BAG = [f for f in FAMILIES for _ in range(f[2])]
 
 
@@ -1599,6 +1613,10 @@ def witnesses():
                            "mad of result %r, target %r (xs=%r ws=%r)" % (got, t, xs, ws), desc))
     if not close(med, float(M.median(xs, ws)), 50.0):
         out.append(Finding("monitor", "impose_mad/median-kept", "median %r -> %r (xs=%r ws=%r)" % (M.median(xs, ws), med, xs, ws), desc))
+    # second deepening: impose_product on an even number of weights with the wrong sign, minkowski's numpy error state
+    # after an exception, minkowski on integer-typed arrays
+    for key, what, desc in c18x.witnesses():
+        out.append(Finding("monitor", key, what, desc))
     return out
 
 
@@ -1614,7 +1632,13 @@ RULE = ("cases: random calls of mean/moment/variance/std/spread/support(_index)/
         "samples, integer / dyadic / general weights with zeros, cuts that fall exactly between two samples, k=0, klo+khi=100, 100%, negative "
         "and >100 percentages, all-zero weights: bit-exact on ALL floats, plus an independent exact-rational textbook trimmed / winsorised "
         "mean and variance from the retained mass per sorted sample) and a malformed stream (empty input, empty support, bad pair index) compared on "
-        "the error enum. 60% of the cases are drawn in the exactness regime (dyadic data, certified per case: every summed term "
+        "the error enum. Second deepening (harness/c18x.py): the distance metrics through their shape logic (0-d / 1-D / 2-D and mixed shapes, "
+        "zero-length arrays, dmin 0-3, pair, axis None / 0 / 1 / 2 / negative / out of range, p in 0,1,2,3,4,7,inf, xp=None, python-int and "
+        "int64-ndarray arguments, inf / nan / 1e200 coordinates incl. the overflow fall-back), standard_moment / skewness / kurtosis / "
+        "expected_variance / expected_std (designed two-point families with perfect-square variance, zero / negative / cancelling weights, tol "
+        "cuts), impose_moment (orders 0-5, skew None/True/False, tol, targets of either sign and 0, degenerate moments), impose_product (lengths "
+        "0-5, negative weights, targets of either sign and 0, zsum / zmass), integer-typed normalize / impose_sum / impose_weight_norm / 'l<p>'. "
+        "60% of the cases are drawn in the exactness regime (dyadic data, certified per case: every summed term "
         "list is a multiple of 2^-40 bounded by 256) and compared bit-exactly; the rest are general floats compared at rel 1e-9. "
         "non-trivial = the operation had something to do (>= 2 distinct samples / a weight actually dropped or rescaled / a pair "
         "actually collapsed / dimension > 1)")
@@ -1623,7 +1647,8 @@ TRUSTED = ["Lean 4.33 kernel; axioms per theorem listed under coverage.theorems"
            "summation order (python compensated sum, numpy pairwise sum) is not modelled: bit-exact comparison only where every sum is exact; libm pow for p-th roots (p >= 3) compared at rel 1e-9 only",
            "median/mad/impose_median/impose_mad and _sort/_k/tmean/tvariance/tstd/impose_tmean/impose_tvariance/impose_tstd are modelled with a STABLE insertion sort: cases where equal samples carry different weights (numpy's argsort order is then an implementation detail) are not compared bit-exactly (the textbook monitor still applies); impose_moment, impose_product, the *reweighted* and optimizer-based imposers are not covered",
            "trimmed family: numpy's ndarray.round(15) = rint(x*1e15)/1e15 (round-half-even), CPython 3.12's compensated float sum and numpy's sequential cumsum are re-implemented in the driver / model and tied to the real ones by the bit-exact comparison only; a winsorised quantile that falls within 1e-9 of a jump of the cumulative weight is not judged by the textbook monitor (either neighbouring sample is accepted at an exact jump)",
-           "DSL twins harness/dsl.py and Model/Dsl.lean for the function argument of expectation / ess_*"]
+           "DSL twins harness/dsl.py and Model/Dsl.lean for the function argument of expectation / ess_*",
+           "distance.py: numpy's broadcasting, transposes, newaxis slices, axis handling (incl. axis=0/-1 on 0-d arrays) and the rule 'max over an axis of length 0 raises' are re-implemented in Model/MeasuresX.lean (NArr) and tied to numpy by the bit-exact comparison only; the overflow FloatingPointError is modelled as 'a finite distance whose power is not finite, or a non-finite sum of finite powers' and exercised only far from the overflow boundary; integer-typed inputs are generated below the int64 wrap; libm pow is trusted to return exactly representable roots exactly (roots are compared bit-exactly only for perfect powers)"]
 ASSUME = ["IEEE binary64 + - * / sqrt and comparisons agree between Lean Float and CPython/numpy",
           "the sign of a zero and NaN payloads are not compared",
           "theorems are over a linearly ordered field; rounding is outside them (the monitor uses rel 1e-9)"]
